@@ -310,10 +310,16 @@ func (t *tx) render() string {
 			fs = append(fs, name+" "+s.render()+tag)
 		}
 		return "struct{ " + strings.Join(fs, "; ") + " }"
-	case "estruct": // first field embedded (must be a named leaf)
+	case "estruct": // first field embedded (must be a named leaf); flavour "named": a field named exactly like its type instead
 		var fs []string
 		for i, s := range t.subs {
-			if i == 0 {
+			if i == 0 && t.s == "named" {
+				fs = append(fs, embeddedName(s.render())+" "+s.render())
+			} else if i == 0 && t.s == "pnamed" {
+				fs = append(fs, embeddedName(s.render())+" *"+s.render())
+			} else if i == 0 && t.s == "ptr" {
+				fs = append(fs, "*"+s.render())
+			} else if i == 0 {
 				fs = append(fs, s.render())
 			} else {
 				fs = append(fs, fmt.Sprintf("f%d %s", i, s.render()))
@@ -343,6 +349,17 @@ func (t *tx) render() string {
 }
 
 var ifaceFlavours = []string{"M", "Mn", "Me", "Mne", "Mnee"}
+
+// estruct flavours: embedded T, field `T T`, embedded *T, field `T *T` (interfaces cannot be embedded through a pointer)
+var estructFlavours = []string{"", "named", "ptr", "pnamed"}
+
+// embeddedName: the field name of an embedded field of the named type written as s (pkg.T[args] -> T)
+func embeddedName(s string) string {
+	if i := strings.Index(s, "["); i >= 0 {
+		s = s[:i]
+	}
+	return s[strings.LastIndex(s, ".")+1:]
+}
 
 func leaf(s string) *tx { return &tx{k: "leaf", s: s} }
 
@@ -380,7 +397,13 @@ func genTx(r *rand.Rand, depth int) *tx {
 		return t
 	case 9:
 		emb := []string{"ta.Template", "tb.Template", "Impl", "N", "Rd", "ATa", "gen.L[int]", "gen.L[string]"}
-		return &tx{k: "estruct", subs: []*tx{leaf(emb[r.Intn(len(emb))]), sub()}}
+		e := &tx{k: "estruct", subs: []*tx{leaf(emb[r.Intn(len(emb))]), sub()}}
+		if !strings.HasPrefix(e.subs[0].s, "Rd") { // an interface cannot be embedded through a pointer; keep the flavours comparable
+			e.s = estructFlavours[r.Intn(len(estructFlavours))]
+		} else if r.Intn(2) == 0 {
+			e.s = "named"
+		}
+		return e
 	default:
 		return &tx{k: "iface", s: ifaceFlavours[r.Intn(len(ifaceFlavours))], subs: []*tx{sub(), sub()}}
 	}
@@ -453,6 +476,13 @@ func mutate(r *rand.Rand, t *tx) *tx {
 		case "iface":
 			n.s = ifaceFlavours[r.Intn(len(ifaceFlavours))]
 			return c
+		case "estruct": // embedded <-> named like its type (<-> through a pointer)
+			if strings.HasPrefix(n.subs[0].s, "Rd") {
+				n.s = map[string]string{"": "named", "named": ""}[n.s]
+			} else {
+				n.s = estructFlavours[r.Intn(len(estructFlavours))]
+			}
+			return c
 		}
 	}
 	return c
@@ -492,6 +522,16 @@ var fixed = []string{
 	"interface{ gen.Getter[int] }", "interface{ gen.Getter[string] }", "interface{ ExecA }", "interface{ ExecB }",
 	"func(interface{ Rd }) interface{ any }", "func(interface{ Read(p []byte) (int, error) }) interface{}",
 	"struct{ a, b int }", "struct{ a int; b int }", "func(a, b int)", "func(int, int)", "func(x int) (r string)",
+	// an embedded field vs a field NAMED exactly like its type (same name, type, tag: only embeddedness differs): package-level
+	// and qualified names, pointers, aliases, instantiations, predeclared names, interfaces; two embedded fields whose types are
+	// identical but written with different names (the field name is the name as written)
+	"struct{ N }", "struct{ N N }", "struct{ *N }", "struct{ N *N }", "struct{ A }", "struct{ A A }", "struct{ A int }", "struct{ int }", "struct{ int int }",
+	"struct{ ATa ta.Template }", "struct{ ATa ATa }", "struct{ *ta.Template }", "struct{ Template *ta.Template }", "struct{ *ATa }", "struct{ ATa *ta.Template }",
+	"struct{ gen.L[int] }", "struct{ L gen.L[int] }", "struct{ *gen.L[int] }", "struct{ L *gen.L[int] }", "struct{ AL }", "struct{ AL AL }", "struct{ AL gen.L[int] }",
+	"struct{ gen.L[string] }", "struct{ L gen.L[string] }", "struct{ Rd }", "struct{ Rd Rd }", "struct{ error }", "struct{ error error }",
+	"struct{ Impl }", "struct{ Impl Impl }", "struct{ byte }", "struct{ uint8 }", "struct{ A8 }", "struct{ A8 byte }", "struct{ AA }", "struct{ AA A }",
+	"struct{ N; B string }", "struct{ N N; B string }", "struct{ a int; Str }", "struct{ a int; Str Str }", "struct{ N `k:\"v\"` }", "struct{ N N `k:\"v\"` }",
+	"*struct{ N }", "*struct{ N N }", "[]struct{ ta.Template }", "[]struct{ Template ta.Template }", "func(struct{ N }) struct{ N N }", "func(struct{ N N }) struct{ N }",
 }
 
 type out struct {
@@ -531,6 +571,8 @@ type out struct {
 	Unsupported string     `json:"unsupported"`
 	Engine      *engineOut `json:"engine,omitempty"`
 	Matrix      *emOut     `json:"matrix,omitempty"`
+	Untyped     *emOut     `json:"untyped,omitempty"`
+	Lookalike   *emOut     `json:"lookalike,omitempty"`
 	Error       string     `json:"error,omitempty"`
 }
 
@@ -936,6 +978,8 @@ func main() {
 	if *tmp != "" {
 		o.Engine = engineSection(*tmp)
 		o.Matrix = emMatrix(*tmp, *seed)
+		o.Untyped = emUntyped(*tmp)
+		o.Lookalike = emLookalike(*seed)
 	}
 	enc.Encode(o)
 }
